@@ -20,9 +20,9 @@ PROP = "C09"
 
 # bounds per tier: family -> (MaxLen, NSample)
 BOUNDS = {
-    "quick": {"s1": (2, 0), "s1s": (0, 300), "sk": (0, 3000), "big": (0, 12), "swr": (3, 0), "top": (2, 0),
+    "quick": {"s1": (2, 0), "s1s": (0, 300), "sk": (0, 3000), "sksep": (2, 600), "big": (0, 12), "swr": (3, 0), "top": (2, 0),
               "arr": (2, 0), "arrs": (0, 120), "mapk": (2, 150), "mapv": (2, 150)},
-    "thorough": {"s1": (3, 0), "s1s": (0, 1000), "sk": (0, 15000), "big": (0, 100), "swr": (4, 0), "top": (3, 0),
+    "thorough": {"s1": (3, 0), "s1s": (0, 1000), "sk": (0, 15000), "sksep": (3, 6000), "big": (0, 100), "swr": (4, 0), "top": (3, 0),
                  "arr": (3, 0), "arrs": (0, 1000), "mapk": (3, 1000), "mapv": (3, 1000)},
 }
 LAW_BOUNDS = {"quick": {"preorder": 2, "sort": 2, "fn": 2}, "thorough": {"preorder": 2, "sort": 3, "fn": 3}}
@@ -195,10 +195,13 @@ def run(tier, seed):
     runs, slots = [], []      # slots[i]: how the output of run i maps to observations
     obs = []                  # abstract observations, filled after the runs
     k = 0
-    for fam in ("s1", "s1s", "sk", "big"):
+    for fam in ("s1", "s1s", "sk", "sksep", "big"):
         for c in fams[fam]:
             cfg = {"keys": c["keys"], "flags": c["flags"], "b": c["b"]}
-            runs.append({"argv": [mlr] + batch_flags(k) + sort_argv(c, k), "stdin": b3.dkvp(c["s"]), "timeout_ms": 10000})
+            # (family sksep: values hold commas, so the fields are separated by semicolons)
+            sepflags, sep = (["--ifs", ";", "--ofs", ";"], ";") if fam == "sksep" else ([], ",")
+            runs.append({"argv": [mlr] + sepflags + batch_flags(k) + sort_argv(c, k), "stdin": b3.dkvp(c["s"], sep), "timeout_ms": 10000,
+                         "_sep": sep})
             slots.append(("stream", len(obs)))
             obs.append({"fam": "sort", "sub": fam, "c": cfg, "s": c["s"],
                         "cmd": {"argv": runs[-1]["argv"][1:], "stdin": runs[-1]["stdin"]}})
@@ -248,10 +251,10 @@ def run(tier, seed):
     # ---- run and parse back
     res = vlib.run_cases(runs)
     vlib.confirm_timeouts(runs, res)
-    for r, (how, where) in zip(res, slots):
+    for r, (how, where), rn in zip(res, slots, runs):
         ex = -2 if r["timed_out"] else r["exit"]
         if how == "stream":
-            obs[where].update({"out": b3.parse_dkvp(r["stdout"]), "exit": ex, "stderr": r["stderr"][:300]})
+            obs[where].update({"out": b3.parse_dkvp(r["stdout"], rn.get("_sep", ",")), "exit": ex, "stderr": r["stderr"][:300]})
         elif how == "lines":
             recs = b3.parse_dkvp(r["stdout"])
             aligned = len(recs) == len(where)
